@@ -670,4 +670,230 @@ theorem walkOk_reach (w h : Option Int) (p : P2) (path : List (Nat × P2)) (hok 
       simp only [hs, beq_iff_eq] at h1
       exact reach_cons (specVec_mem hs) h1.symm (ih q h2)
 
+/-! ### concentric hexagons -/
+
+theorem mem_walkSide (d : P2) (n : Nat) (q p : P2) :
+    p ∈ walkSide d n q ↔ ∃ i : Nat, i < n ∧ p = (q.1 + i * d.1, q.2 + i * d.2) := by
+  induction n generalizing q with
+  | zero => simp [walkSide]
+  | succ n ih =>
+    simp only [walkSide, List.mem_cons, ih]
+    constructor
+    · rintro (h | ⟨i, hi, h⟩)
+      · exact ⟨0, by omega, by simp [h]⟩
+      · refine ⟨i + 1, by omega, ?_⟩
+        rw [h]
+        have : ((i + 1 : Nat) : Int) = (i : Int) + 1 := by omega
+        rw [this, Int.add_mul, Int.add_mul]; ext <;> simp <;> omega
+    · rintro ⟨i, hi, h⟩
+      cases i with
+      | zero => left; simp [h]
+      | succ i =>
+        right
+        refine ⟨i, by omega, ?_⟩
+        rw [h]
+        have : ((i + 1 : Nat) : Int) = (i : Int) + 1 := by omega
+        rw [this, Int.add_mul, Int.add_mul]; ext <;> simp <;> omega
+
+theorem walkSide_length (d : P2) (n : Nat) (q : P2) : (walkSide d n q).length = n := by
+  induction n generalizing q with
+  | zero => rfl
+  | succ n ih => simp [walkSide, ih]
+
+theorem ringEnd_hexDirs (r : Nat) (p : P2) : ringEnd r hexDirs p = p := by
+  simp only [ringEnd, hexDirs, sideEnd]
+  ext <;> simp <;> omega
+
+theorem walkRing_length (r : Nat) (p : P2) : (walkRing r hexDirs p).length = 6 * r := by
+  simp only [walkRing, hexDirs, List.length_append, walkSide_length, List.length_nil]; omega
+
+/-- the six sides of ring `r` around `c`, explicitly -/
+def onRing (c : P2) (r : Nat) (p : P2) : Prop :=
+  ∃ i : Nat, i < r ∧
+    (p = (c.1 + i, c.2 - r + i) ∨ p = (c.1 + r, c.2 + i) ∨ p = (c.1 + r - i, c.2 + r) ∨
+     p = (c.1 - i, c.2 + r - i) ∨ p = (c.1 - r, c.2 - i) ∨ p = (c.1 - r + i, c.2 - r))
+
+theorem mem_ring (c : P2) (r : Nat) (p : P2) :
+    p ∈ walkRing r hexDirs (c.1, c.2 - r) ↔ onRing c r p := by
+  simp only [walkRing, hexDirs, sideEnd, List.mem_append, mem_walkSide, List.not_mem_nil, or_false, onRing]
+  constructor
+  · rintro (⟨i, hi, h⟩ | ⟨i, hi, h⟩ | ⟨i, hi, h⟩ | ⟨i, hi, h⟩ | ⟨i, hi, h⟩ | ⟨i, hi, h⟩) <;>
+      refine ⟨i, hi, ?_⟩ <;> subst h
+    · left; ext <;> simp <;> omega
+    · right; left; ext <;> simp <;> omega
+    · right; right; left; ext <;> simp <;> omega
+    · right; right; right; left; ext <;> simp <;> omega
+    · right; right; right; right; left; ext <;> simp <;> omega
+    · right; right; right; right; right; ext <;> simp <;> omega
+  · rintro ⟨i, hi, h | h | h | h | h | h⟩ <;> subst h
+    · left; exact ⟨i, hi, by ext <;> simp <;> omega⟩
+    · right; left; exact ⟨i, hi, by ext <;> simp <;> omega⟩
+    · right; right; left; exact ⟨i, hi, by ext <;> simp <;> omega⟩
+    · right; right; right; left; exact ⟨i, hi, by ext <;> simp <;> omega⟩
+    · right; right; right; right; left; exact ⟨i, hi, by ext <;> simp <;> omega⟩
+    · right; right; right; right; right; exact ⟨i, hi, by ext <;> simp <;> omega⟩
+
+theorem ring_witness' (x y M m : Int) (r : Nat) (hr : 1 ≤ r)
+    (hM : (M = x ∨ M = y) ∧ x ≤ M ∧ y ≤ M) (hm : (m = x ∨ m = y) ∧ m ≤ x ∧ m ≤ y)
+    (hd : max M 0 - min m 0 = r) :
+    ∃ i : Nat, i < r ∧ ((x = i ∧ y = -r + i) ∨ (x = r ∧ y = i) ∨ (x = r - i ∧ y = r) ∨
+      (x = -i ∧ y = r - i) ∨ (x = -r ∧ y = -i) ∨ (x = -r + i ∧ y = -r)) := by
+  by_cases h1 : 0 ≤ x ∧ y < 0
+  · obtain ⟨i, hi⟩ := Int.eq_ofNat_of_zero_le (show 0 ≤ x by omega)
+    exact ⟨i, by omega, Or.inl ⟨by omega, by omega⟩⟩
+  by_cases h2 : x = r ∧ 0 ≤ y ∧ y < r
+  · obtain ⟨i, hi⟩ := Int.eq_ofNat_of_zero_le (show 0 ≤ y by omega)
+    exact ⟨i, by omega, Or.inr (Or.inl ⟨by omega, by omega⟩)⟩
+  by_cases h3 : y = r ∧ 0 < x
+  · obtain ⟨i, hi⟩ := Int.eq_ofNat_of_zero_le (show 0 ≤ (r : Int) - x by omega)
+    exact ⟨i, by omega, Or.inr (Or.inr (Or.inl ⟨by omega, by omega⟩))⟩
+  by_cases h4 : x ≤ 0 ∧ 0 < y
+  · obtain ⟨i, hi⟩ := Int.eq_ofNat_of_zero_le (show 0 ≤ -x by omega)
+    exact ⟨i, by omega, Or.inr (Or.inr (Or.inr (Or.inl ⟨by omega, by omega⟩)))⟩
+  by_cases h5 : x = -r ∧ -r < y ∧ y ≤ 0
+  · obtain ⟨i, hi⟩ := Int.eq_ofNat_of_zero_le (show 0 ≤ -y by omega)
+    exact ⟨i, by omega, Or.inr (Or.inr (Or.inr (Or.inr (Or.inl ⟨by omega, by omega⟩))))⟩
+  · obtain ⟨i, hi⟩ := Int.eq_ofNat_of_zero_le (show 0 ≤ x + r by omega)
+    exact ⟨i, by omega, Or.inr (Or.inr (Or.inr (Or.inr (Or.inr ⟨by omega, by omega⟩))))⟩
+
+theorem ring_witness (x y : Int) (r : Nat) (hr : 1 ≤ r) (hd : hexLen x y = r) :
+    ∃ i : Nat, i < r ∧ ((x = i ∧ y = -r + i) ∨ (x = r ∧ y = i) ∨ (x = r - i ∧ y = r) ∨
+      (x = -i ∧ y = r - i) ∨ (x = -r ∧ y = -i) ∨ (x = -r + i ∧ y = -r)) := by
+  refine ring_witness' x y (max x y) (min x y) r hr ⟨?_, Int.le_max_left _ _, Int.le_max_right _ _⟩
+    ⟨?_, Int.min_le_left _ _, Int.min_le_right _ _⟩ hd
+  · rcases Int.le_total x y with h | h
+    · right; exact Int.max_eq_right h
+    · left; exact Int.max_eq_left h
+  · rcases Int.le_total x y with h | h
+    · left; exact Int.min_eq_left h
+    · right; exact Int.min_eq_right h
+
+theorem onRing_dist (c : P2) (r : Nat) (p : P2) : onRing c r p ↔ (1 ≤ r ∧ hexDist c p = r) := by
+  constructor
+  · rintro ⟨i, hi, h | h | h | h | h | h⟩ <;> subst h <;> unfold hexDist hexLen <;>
+      (constructor <;> (try dsimp only) <;> omega)
+  · rintro ⟨hr, hd⟩
+    obtain ⟨i, hi, h⟩ := ring_witness (p.1 - c.1) (p.2 - c.2) r hr hd
+    refine ⟨i, hi, ?_⟩
+    rcases h with ⟨a, b⟩ | ⟨a, b⟩ | ⟨a, b⟩ | ⟨a, b⟩ | ⟨a, b⟩ | ⟨a, b⟩
+    · left; ext <;> simp <;> omega
+    · right; left; ext <;> simp <;> omega
+    · right; right; left; ext <;> simp <;> omega
+    · right; right; right; left; ext <;> simp <;> omega
+    · right; right; right; right; left; ext <;> simp <;> omega
+    · right; right; right; right; right; ext <;> simp <;> omega
+
+theorem walkSide_nodup (d : P2) (hd : d ∈ hexDirs) (n : Nat) (q : P2) : (walkSide d n q).Nodup := by
+  induction n generalizing q with
+  | zero => simp [walkSide]
+  | succ n ih =>
+    simp only [walkSide, List.nodup_cons, ih, and_true, mem_walkSide]
+    rintro ⟨i, hi, h⟩
+    have h1 := congrArg Prod.fst h
+    have h2 := congrArg Prod.snd h
+    simp only [hexDirs, List.mem_cons, List.not_mem_nil, or_false] at hd
+    rcases hd with rfl | rfl | rfl | rfl | rfl | rfl <;> simp at h1 h2 <;> omega
+
+theorem ring_nodup (c : P2) (r : Nat) : (walkRing r hexDirs (c.1, c.2 - r)).Nodup := by
+  have hs : ∀ d ∈ hexDirs, ∀ q, (walkSide d r q).Nodup := fun d hd q => walkSide_nodup d hd r q
+  simp only [walkRing, hexDirs, sideEnd, List.append_nil]
+  simp only [List.nodup_append]
+  refine ⟨hs _ (by decide) _, ⟨hs _ (by decide) _, ⟨hs _ (by decide) _, ⟨hs _ (by decide) _,
+    ⟨hs _ (by decide) _, hs _ (by decide) _, ?_⟩, ?_⟩, ?_⟩, ?_⟩, ?_⟩
+  all_goals
+    intro a ha b hb hab
+    subst hab
+    simp only [List.mem_append, mem_walkSide] at ha hb
+    obtain ⟨i, hi, ha⟩ := ha
+  · obtain ⟨j, hj, hb⟩ := hb
+    rw [ha] at hb
+    have h1 := congrArg Prod.fst hb
+    have h2 := congrArg Prod.snd hb
+    simp at h1 h2; omega
+  · rcases hb with ⟨j, hj, hb⟩ | ⟨j, hj, hb⟩ <;>
+    · rw [ha] at hb
+      have h1 := congrArg Prod.fst hb
+      have h2 := congrArg Prod.snd hb
+      simp at h1 h2; omega
+  · rcases hb with ⟨j, hj, hb⟩ | ⟨j, hj, hb⟩ | ⟨j, hj, hb⟩ <;>
+    · rw [ha] at hb
+      have h1 := congrArg Prod.fst hb
+      have h2 := congrArg Prod.snd hb
+      simp at h1 h2; omega
+  · rcases hb with ⟨j, hj, hb⟩ | ⟨j, hj, hb⟩ | ⟨j, hj, hb⟩ | ⟨j, hj, hb⟩ <;>
+    · rw [ha] at hb
+      have h1 := congrArg Prod.fst hb
+      have h2 := congrArg Prod.snd hb
+      simp at h1 h2; omega
+  · rcases hb with ⟨j, hj, hb⟩ | ⟨j, hj, hb⟩ | ⟨j, hj, hb⟩ | ⟨j, hj, hb⟩ | ⟨j, hj, hb⟩ <;>
+    · rw [ha] at hb
+      have h1 := congrArg Prod.fst hb
+      have h2 := congrArg Prod.snd hb
+      simp at h1 h2; omega
+
+def sumRings : Nat → Nat → Nat
+  | 0, _ => 0
+  | n + 1, r => 6 * r + sumRings n (r + 1)
+
+theorem sumRings_closed (n r : Nat) : sumRings n r + 3 * n = 6 * (n * r) + 3 * (n * n) := by
+  induction n generalizing r with
+  | zero => simp [sumRings]
+  | succ n ih =>
+    have := ih (r + 1)
+    simp only [sumRings, Nat.add_mul, Nat.mul_add, Nat.one_mul, Nat.mul_one] at *
+    omega
+
+theorem hexDist_nonneg (c p : P2) : 0 ≤ hexDist c p := hexLen_nonneg _ _
+
+theorem rings_spec (c : P2) (n : Nat) : ∀ (r0 : Nat) (p : P2), 1 ≤ r0 → p = (c.1, c.2 - r0 + 1) →
+    (∀ q, q ∈ rings n r0 p ↔ ∃ r : Nat, r0 ≤ r ∧ r < r0 + n ∧ hexDist c q = r) ∧
+    (rings n r0 p).Nodup ∧ (rings n r0 p).Pairwise (fun a b => hexDist c a ≤ hexDist c b) ∧
+    (rings n r0 p).length = sumRings n r0 := by
+  induction n with
+  | zero =>
+    intro r0 p _ _
+    refine ⟨fun q => ?_, by simp [rings], by simp [rings], by simp [rings, sumRings]⟩
+    simp only [rings, List.not_mem_nil, false_iff]
+    rintro ⟨r, h1, h2, _⟩; omega
+  | succ n ih =>
+    intro r0 p hr0 hp
+    have hp' : (p.1, p.2 - 1) = (c.1, c.2 - (r0 : Int)) := by rw [hp]; ext <;> simp <;> omega
+    obtain ⟨im, ind, ipw, il⟩ := ih (r0 + 1) (c.1, c.2 - (r0 : Int)) (by omega) (by ext <;> simp <;> omega)
+    have hm : ∀ q, q ∈ walkRing r0 hexDirs (c.1, c.2 - (r0 : Int)) ↔ hexDist c q = r0 := by
+      intro q; rw [mem_ring, onRing_dist]; simp [hr0]
+    simp only [rings, hp', ringEnd_hexDirs]
+    refine ⟨fun q => ?_, ?_, ?_, ?_⟩
+    · rw [List.mem_append, hm, im]
+      constructor
+      · rintro (h | ⟨r, h1, h2, h3⟩)
+        · exact ⟨r0, by omega, by omega, h⟩
+        · exact ⟨r, by omega, by omega, h3⟩
+      · rintro ⟨r, h1, h2, h3⟩
+        by_cases hr : r = r0
+        · left; rw [h3, hr]
+        · right; exact ⟨r, by omega, by omega, h3⟩
+    · rw [List.nodup_append]
+      refine ⟨ring_nodup c r0, ind, ?_⟩
+      intro a ha b hb hab
+      subst hab
+      rw [hm] at ha
+      obtain ⟨r, h1, _, h3⟩ := (im a).1 hb
+      omega
+    · rw [List.pairwise_append]
+      refine ⟨?_, ipw, ?_⟩
+      · refine List.Pairwise.imp_of_mem ?_ (ring_nodup c r0)
+        intro a b ha hb _
+        rw [(hm a).1 ha, (hm b).1 hb]; omega
+      · intro a ha b hb
+        obtain ⟨r, h1, _, h3⟩ := (im b).1 hb
+        rw [(hm a).1 ha, h3]; omega
+    · rw [List.length_append, walkRing_length, il]; rfl
+
+
+theorem hexDist_self (c : P2) : hexDist c c = 0 := by simp [hexDist, hexLen]
+
+theorem hexDist_eq_zero (c p : P2) (h : hexDist c p = 0) : p = c := by
+  unfold hexDist hexLen at h
+  ext <;> omega
+
 end Rig.C11
